@@ -74,7 +74,7 @@ VARIABLES
   opened,    \* local connections opened so far (ids 1 .. opened)
   pending,   \* ids not served yet
   served,    \* ids served (bytes reached the target and came back)
-  hist       \* one record per attempt: [beh, conn, delayAfter, c]
+  hist       \* one record per attempt: [beh, conn, delayAfter, gaveUp, waited]
 
 cvars == <<p, phase, k, delay, acc, att, cur, result, srvDown, opened, pending, served, hist>>
 
